@@ -4,6 +4,7 @@ import (
 	"context"
 	"encoding/json"
 	"fmt"
+	"os"
 	"sort"
 	"strconv"
 	"strings"
@@ -175,7 +176,15 @@ var UniChoice = &Universe{Name: "choice", Tmpls: tmpls(
 	"plain/descr", "plain/l1/descr",
 )}
 
-var Universes = map[string]*Universe{"plain": UniPlain, "plain+nonalpha": UniPlainNA, "choice": UniChoice}
+// UniChoiceNoList: as UniChoice without the choice members inside list entries.
+var UniChoiceNoList = &Universe{Name: "choice-nolist", Tmpls: tmpls(
+	"chc/ca", "chc/ca2", "chc/cb", "chc/cbc/x", "chc/cl", "chc/ca-x", "chc/ca_x", "chc/other",
+	"chc/ce/ia-x", "chc/ce/pv",
+	"chc/nest/oi/na", "chc/nest/oi/nb", "chc/nest/oi/oil", "chc/nest/o1l", "chc/nest/oc",
+	"plain/descr", "plain/l1/descr",
+)}
+
+var Universes = map[string]*Universe{"plain": UniPlain, "plain+nonalpha": UniPlainNA, "choice": UniChoice, "choice-nolist": UniChoiceNoList}
 
 // ---------------------------------------------------------------- case
 
@@ -229,11 +238,11 @@ func GenPalette(t *rapid.T) []string {
 }
 
 type HistGenOpts struct {
-	Universe   *Universe
-	MaxSteps   int
-	MinSteps   int
-	WithInit   bool
-	Forms      []string
+	Universe    *Universe
+	MaxSteps    int
+	MinSteps    int
+	WithInit    bool
+	Forms       []string
 	AllowOrphan bool
 }
 
@@ -284,7 +293,8 @@ func GenHistCase(t *rapid.T, o HistGenOpts) *HistCase {
 type MIntent struct {
 	Name   string
 	Prio   int32
-	Leaves Conf // explicit leaves plus implied key leaves
+	Leaves Conf           // explicit leaves plus implied key leaves
+	Req    ResolvedIntent // the request that created this version (for verbatim re-submission)
 }
 
 type Model struct {
@@ -404,13 +414,16 @@ func (m *Model) ResolveStep(u *Universe, palette []string, st Step) []ResolvedIn
 		used[ri.Prio] = true
 		if op.Kind == "set" {
 			ri.Explicit = Conf{}
+			var order []string
 			for _, sel := range op.Leaves {
 				p, v := u.Resolve(sel, palette)
 				k := p.Canon()
 				if _, dup := ri.Explicit[k]; !dup {
 					ri.Explicit[k] = v
+					order = append(order, k)
 				}
 			}
+			ri.Explicit = FilterOneCasePerChoice(order, ri.Explicit)
 			ri.Leaves = WithImplied(ri.Explicit)
 		}
 		res = append(res, ri)
@@ -420,13 +433,13 @@ func (m *Model) ResolveStep(u *Universe, palette []string, st Step) []ResolvedIn
 
 // StepEffect summarises what a step did to the model (for labels).
 type StepEffect struct {
-	WinnerChanged     bool // some path defined by >= 2 live owners changed its winner
-	ShadowerRemoved   bool // an owner that shadowed another was removed / re-prioritised / shrunk
-	ThirdActivated    bool // a path's new winner was third-ranked or lower before
-	Reprioritised     bool
-	ShadowedModified  bool // a changed/deleted intent had >= 1 shadowed path
-	LostLast          []string
-	Labels            []string
+	WinnerChanged    bool // some path defined by >= 2 live owners changed its winner
+	ShadowerRemoved  bool // an owner that shadowed another was removed / re-prioritised / shrunk
+	ThirdActivated   bool // a path's new winner was third-ranked or lower before
+	Reprioritised    bool
+	ShadowedModified bool // a changed/deleted intent had >= 1 shadowed path
+	LostLast         []string
+	Labels           []string
 }
 
 // Apply updates the model with the resolved intents of a successful step.
@@ -481,7 +494,7 @@ func (m *Model) Apply(ris []ResolvedIntent) StepEffect {
 			} else {
 				lab["create-intent"] = true
 			}
-			m.Intents[ri.Name] = &MIntent{Name: ri.Name, Prio: ri.Prio, Leaves: ri.Leaves.Clone()}
+			m.Intents[ri.Name] = &MIntent{Name: ri.Name, Prio: ri.Prio, Leaves: ri.Leaves.Clone(), Req: ri}
 			m.noteDefined(ri.Leaves)
 			lab["form-"+ri.Form] = true
 		case "delete":
@@ -778,13 +791,13 @@ func NewHistEnv(ctx context.Context, env *Env, c *HistCase, o HistEnvOpts) (*His
 }
 
 type StepResult struct {
-	Resolved     []ResolvedIntent
-	Rsp          *sdcpb.TransactionSetResponse
-	Err          error
-	IntentErrors map[string][]string
-	OK           bool
-	TxID         string
-	Effect       StepEffect
+	Resolved       []ResolvedIntent
+	Rsp            *sdcpb.TransactionSetResponse
+	Err            error
+	IntentErrors   map[string][]string
+	OK             bool
+	TxID           string
+	Effect         StepEffect
 	DevCallsBefore int
 }
 
@@ -831,8 +844,9 @@ func IntentErrorsOf(rsp *sdcpb.TransactionSetResponse) map[string][]string {
 	return res
 }
 
-// RunStep resolves, submits and (on success) confirms one step and updates the model.
-func (h *HistEnv) RunStep(st Step) *StepResult {
+// SubmitStep resolves and submits one step without confirming it; the model is
+// not updated (use CommitModel after a confirm).
+func (h *HistEnv) SubmitStep(st Step) *StepResult {
 	res := &StepResult{DevCallsBefore: h.Dev.Calls()}
 	res.Resolved = h.Model.ResolveStep(h.Uni, h.Palette, st)
 	h.txn++
@@ -855,7 +869,23 @@ func (h *HistEnv) RunStep(st Step) *StepResult {
 		return res
 	}
 	res.OK = true
+	return res
+}
+
+// RunStep resolves, submits and (on success) confirms one step and updates the model.
+func (h *HistEnv) RunStep(st Step) *StepResult {
+	res := h.SubmitStep(st)
+	if !res.OK {
+		return res
+	}
 	res.Effect = h.Model.Apply(res.Resolved)
+	if os.Getenv("VERIF_DEBUG") != "" {
+		var d []string
+		for _, ri := range res.Resolved {
+			d = append(d, fmt.Sprintf("%s %s prio=%d %s", ri.Kind, ri.Name, ri.Prio, JSON(ri.Explicit)))
+		}
+		fmt.Printf("DEBUG %s: %s\n  lastrec=%s\n  dev=%s\n", res.TxID, strings.Join(d, "; "), JSON(h.Dev.LastRecord()), JSON(h.Dev.Snapshot()))
+	}
 	if err := h.DS.TransactionConfirm(h.Ctx, res.TxID); err != nil {
 		res.Err = fmt.Errorf("confirm: %w", err)
 		res.OK = false
